@@ -88,18 +88,25 @@ MOVES = ("order", "skipA")
 POPULATION = ("orderLast", "absent", "unset")
 HIST_QUICK = [dict(N=3, T=2, byName=True, free=MOVES), dict(N=3, T=2, byName=True, free=POPULATION),
               dict(N=2, T=3, byName=False, free=("order", "absent", "skipB")),
-              dict(N=2, T=2, byName=True, free=("order", "explicit", "skipB"))]
+              dict(N=2, T=2, byName=True, free=("order", "explicit", "skipB")),
+              dict(N=2, T=3, byName=True, free=("now", "explicit", "absent", "unset")),
+              dict(N=2, T=3, byName=False, free=("now", "orderLast", "skipA"))]
 HIST_THOROUGH = [dict(N=3, T=3, byName=True, free=MOVES + ("skipB",)), dict(N=4, T=2, byName=True, free=MOVES),
                  dict(N=3, T=3, byName=True, free=POPULATION + ("skipA", "explicit")),
                  dict(N=3, T=2, byName=True, free=MOVES + POPULATION),
                  dict(N=3, T=3, byName=False, free=("order", "skipA", "explicit")),
-                 dict(N=3, T=3, byName=False, free=("orderLast", "absent", "skipB"))]
+                 dict(N=3, T=3, byName=False, free=("orderLast", "absent", "skipB")),
+                 dict(N=3, T=3, byName=True, free=("now", "orderLast", "absent", "unset", "explicit")),
+                 dict(N=3, T=4, byName=False, free=("now", "orderLast", "absent", "explicit"))]
 
 
 @harness("C06", bounds="N = 2..3 (thorough: 4) assemblies with one block each, T = 2..3 snapshots; solver-chosen per "
                        "instance: the order of the assemblies (their positions) at every snapshot (any permutation), "
                        "one assembly absent from one snapshot, the assembly parameter not stored at one snapshot, "
-                       "one assembly / one block not asked for, steps given as an explicit (reversed) list; the "
+                       "one assembly / one block not asked for, steps given as an explicit (reversed) list, the "
+                       "step the live reactor is at (any step holding a snapshot - a reactor sitting at an earlier "
+                       "step of a complete database, its state changed since that write - or the next, unwritten "
+                       "one); the "
                        "stored values and the live values are independent symbolic reals in [-1e3,1e3]; parameters "
                        "named explicitly (incl. location) or all (params=None)", stubs=STUBS, max_paths=40000,
          instances={"quick": HIST_QUICK, "thorough": HIST_THOROUGH})
@@ -125,6 +132,9 @@ def history_follows_the_object_by_identity(ctx, N, T, byName, free):
     skipA = ctx.int("assemblyNotAskedFor", -1, N - 1)           # -1: all asked for
     skipB = ctx.int("blockNotAskedFor", -1, N - 1)
     explicitSteps = ctx.bool("explicitStepList")
+    nowAt = ctx.int("reactorIsAtStep", 0, T)                    # T: the step after the last snapshot (not written)
+    if "now" not in free:
+        ctx.assume(nowAt == T)
     for t in range(T):
         if not ("order" in free or ("orderLast" in free and t == T - 1)):
             ctx.assume(order[t] == 0)
@@ -146,6 +156,7 @@ def history_follows_the_object_by_identity(ctx, N, T, byName, free):
     skipA, skipB = pick(skipA, -1, N - 1), pick(skipB, -1, N - 1)
     asked, askedB = [i != skipA for i in range(N)], [i != skipB for i in range(N)]
     explicitSteps = flag(explicitSteps)
+    nowAt = pick(nowAt, 0, T)
 
     # -- the file as a run wrote it
     f = SP._FakeH5py.File(NAME, "w")
@@ -174,8 +185,10 @@ def history_follows_the_object_by_identity(ctx, N, T, byName, free):
         gb.members.append(("power", ADataset(f, _objarr([vB[i][t] for i in here]))))
     f.close()
 
-    # -- the live objects (current time: a step that has not been written)
-    now = (steps[-1][0], steps[-1][1] + 1)
+    # -- the live objects; current time: a step that has not been written, or a step that has a snapshot (whose
+    #    values then are what the history reports for it: the live values are independent symbols, i.e. the state
+    #    has changed since that write)
+    now = (steps[-1][0], steps[-1][1] + 1) if nowAt == T else steps[nowAt]
     r = object.__new__(Reactor)
     r.p = types.SimpleNamespace(cycle=now[0], timeNode=now[1])
     r.parent = None
@@ -217,9 +230,9 @@ def history_follows_the_object_by_identity(ctx, N, T, byName, free):
             h = hist[objs[i]]
             pname = "chargeTime" if kind == "a" else "power"
             written = [t for t in range(T) if not (i == absentWho and t == absentAt)]
-            wantSteps = [steps[t] for t in written] + [now]
-            ctx.check("%s%d %s: one entry per snapshot holding the object, plus the live state" % (kind, i, pname),
-                      sorted(h[pname].keys()) == sorted(wantSteps))
+            wantSteps = [steps[t] for t in written] + ([now] if nowAt not in written else [])
+            ctx.check("%s%d %s: one entry per snapshot holding the object, plus the live state if the current step "
+                      "has none" % (kind, i, pname), sorted(h[pname].keys()) == sorted(wantSteps))
             for t in written:
                 if steps[t] not in h[pname]:
                     continue
@@ -228,8 +241,9 @@ def history_follows_the_object_by_identity(ctx, N, T, byName, free):
                     want = want + ITE(AND(want > 500.0, liveA[0] < -250.0), 1.0, 0.0)
                 ctx.check_close("%s%d %s at step %d: the value this object had at that write (default if not stored)"
                                 % (kind, i, pname, t), h[pname][steps[t]], want, scale=1.0e3)
-            if now in h[pname]:
-                ctx.check_close("%s%d %s now: the live value" % (kind, i, pname), h[pname][now],
+            if now in h[pname] and nowAt not in written:
+                ctx.check_close("%s%d %s now (no snapshot of it at the current step): the live value"
+                                % (kind, i, pname), h[pname][now],
                                 liveA[i] if kind == "a" else liveB[i], scale=1.0e3)
             if kind == "a" and byName:
                 ctx.check("a%d location: where this object sat at each write" % i,
